@@ -234,6 +234,18 @@ def _arena_pipeline_rest(tier, focus, variants, key, t0, thorough, wd, bins, mc,
             shutil.copyfileobj(g, out)
         os.unlink(gpath)
         del gr
+        # capacity grid: with_capacity constructors around the rounding boundaries of the chunk size computation
+        gr = tlc("MC_Arena", "MC_Arena_capgrid.cfg", workers=4, timeout=900, xmx="4g")
+        if gr.error:
+            raise ToolError("MC_Arena_capgrid failed: %s\n%s" % (gr.error, gr.out[-3000:]))
+        ncap = extract_behaviours(gr.out, gpath, start_id=nsim + ngrid + 1)
+        if ncap == 0:
+            raise ToolError("MC_Arena_capgrid produced no behaviours")
+        with open(beh, "a") as out, open(gpath) as g:
+            shutil.copyfileobj(g, out)
+        os.unlink(gpath)
+        ngrid += ncap
+        del gr
     # 3. replay
     obs = os.path.join(wd, "obs.ndjson")
     if focus == "fail" and variants == "trait":
